@@ -25,8 +25,11 @@ CORPUS = [
 ]
 
 
+EXTRA = ["StreamzVerif.Props.C01Sem"]
+
+
 def run(ctx):
-    ctx.audit()
+    ctx.audit(extra_modules=EXTRA)
     n = 400 if not ctx.thorough() else 12000
     graphcheck.run_family(ctx, n, ASPECTS, CHECKS, SIGS, corpus=CORPUS)
     ctx.coverage["rule"] = (
@@ -42,6 +45,6 @@ def run(ctx):
 
 
 def replay(ctx, data):
-    ctx.audit()
+    ctx.audit(extra_modules=EXTRA)
     graphcheck.replay_case(ctx, data["case"], ASPECTS, CHECKS, SIGS)
     ctx.coverage["rule"] = "replay of one recorded case"
